@@ -393,7 +393,16 @@ impl World {
             // objects sit in front of the cursor, the sweep neither visits nor remembers them.
             let sweep_allocs = self.rt[a as usize].allocs_at_sweep_start.map(|s0| self.rt[a as usize].allocs - s0);
             let zero_carry_sweep = call == Call::FinishCycle && p == Phase::Sweeping && d0 == 0.0 && sweep_allocs.is_some();
-            if (atomic || zero_carry || zero_carry_sweep) && !self.rt[a as usize].pacing_changed_since_last_cycle_end() {
+            // a cycle that ends with nothing left in the arena carries nothing either: an arena
+            // holding no allocations has zero debt (C10), and what is carried is the debt at the
+            // moment the cycle ends
+            // (a cycle must really have ended in this call: debt added by adjust_debt while an
+            // empty arena sleeps is hidden, not forgiven)
+            let empty_end = self.metrics(a).total_gc_count() == 0 && !unwound && p != Phase::Sleeping;
+            if empty_end && !(atomic || zero_carry || zero_carry_sweep) {
+                self.stats.flag("C09.sleep-after-emptying-cycle");
+            }
+            if (atomic || zero_carry || zero_carry_sweep || empty_end) && !self.rt[a as usize].pacing_changed_since_last_cycle_end() {
                 let mut survivors = self.metrics(a).total_gc_count();
                 if zero_carry_sweep {
                     survivors = survivors.saturating_sub(sweep_allocs.unwrap_or(0));
